@@ -336,6 +336,14 @@ end
 
 def opaqueStr : Str := "<opaque>".toList
 
+/-- `Debug` of a stdlib stub is its struct name (`function_head!`): the four globals of `ScriptContext::default` -/
+def stubName (f : Str) : Str :=
+  if f == "to_string".toList then "ToString".toList
+  else if f == "to_integer".toList then "ToInteger".toList
+  else if f == "split".toList then "Split".toList
+  else if f == "strcat".toList then "StringConcat".toList
+  else opaqueStr
+
 mutual
   /-- `Value::to_string()` of a runtime value; native objects print their `Debug` form, which the
       correspondence canonicalises to `<opaque>` -/
@@ -345,6 +353,7 @@ mutual
     | .str s => '"' :: escDebugL s ++ ['"']
     | .arr xs => '[' :: commaSep (Val.showList xs) ++ [']']
     | .tup xs => '(' :: commaSep (Val.showList xs) ++ [')']
+    | .callable f => stubName f
     | _ => opaqueStr
   def Val.showList : List Val → List Str
     | [] => []
